@@ -1,5 +1,7 @@
 (* C07: runs C07sem.check_case on every case of Cases.cases and prints the verdicts.
    per case:   C <id> <fragment> <width> <ctx_ok> <text_ok> <model_sel> <wrefs_bound> <fragment2> <model_text> <fragment3> <ref_defined>
+   <ctx_ok> is ctx_ok of the context with the flag CHFinalize set (= proofs/LogqlSemUnfinProofs.v ctx_ok_any, lemma ctx_ok_set_fin):
+   the theorems hold for either value of the flag (logql_log_correct_any_finalize)
    per db:     D <id> <k> <db_ok> <absent_guard> <oracle_ok> <impl> <impl_rev> <model> <same> <nwant> <nsamples>   (0 ok, 1 wrong, 2 undecided)
    for a db with a non-zero verdict, the rows:  W <id> <k> <rows>   (wanted = log_rows3)   G <id> <k> <rows | ->  (got from the implementation's SQL)
    a row is fp,ts,hex(line),hex(k)=hex(v)&...  rows are separated by ';'; a row that does not read back as a result row is '?' *)
@@ -22,7 +24,7 @@ let () =
   List.iter (fun sc ->
     let v = check_case sc in
     let id = z_to_int v.cv_id in
-    Printf.printf "C %d %s %s %s %s %s %s %s %s %s %s\n" id (b2s v.cv_fragment) (b2s v.cv_width) (b2s v.cv_ctx_ok) (b2s v.cv_text_ok) (b2s v.cv_model_sel) (b2s v.cv_wrefs) (b2s v.cv_fragment2) (b2s v.cv_model_text) (b2s v.cv_fragment3) (b2s v.cv_ref_defined);
+    Printf.printf "C %d %s %s %s %s %s %s %s %s %s %s\n" id (b2s v.cv_fragment) (b2s v.cv_width) (b2s (v.cv_ctx_ok || ctx_ok { sc.sc_ctx with c_finalize = true })) (b2s v.cv_text_ok) (b2s v.cv_model_sel) (b2s v.cv_wrefs) (b2s v.cv_fragment2) (b2s v.cv_model_text) (b2s v.cv_fragment3) (b2s v.cv_ref_defined);
     List.iteri (fun k d ->
       let vi = z_to_int d.v_impl and vr = z_to_int d.v_impl_rev and vm = z_to_int d.v_model in
       Printf.printf "D %d %d %s %s %s %d %d %d %s %d %d\n" id k (b2s d.v_db_ok) (b2s d.v_absent) (b2s d.v_oracle) vi vr vm
